@@ -248,8 +248,27 @@ impl Ctx {
                 Err(_) => break None,
             }
         };
-        let stdout = t_out.join().unwrap_or_default();
-        let stderr = t_err.join().unwrap_or_default();
+        // the scratch directory's name (it contains a pid) must not leak into anything compared
+        let scrub = |v: Vec<u8>| -> Vec<u8> {
+            let needle = self.scratch.path().as_os_str().as_encoded_bytes();
+            if needle.is_empty() || !v.windows(needle.len()).any(|w| w == needle) {
+                return v;
+            }
+            let mut out = Vec::with_capacity(v.len());
+            let mut i = 0;
+            while i < v.len() {
+                if v[i..].starts_with(needle) {
+                    out.extend_from_slice(b"<scratch>");
+                    i += needle.len();
+                } else {
+                    out.push(v[i]);
+                    i += 1;
+                }
+            }
+            out
+        };
+        let stdout = scrub(t_out.join().unwrap_or_default());
+        let stderr = scrub(t_err.join().unwrap_or_default());
         use std::os::unix::process::ExitStatusExt;
         let code = status.map(|s| s.code().unwrap_or(-(s.signal().unwrap_or(0)))).unwrap_or(-999);
         let mut shim = BTreeMap::new();
